@@ -151,6 +151,9 @@ func classifyMapRange(L *Loaded, x *Exec, fn *ssa.Function, r *ssa.Range) orderS
 					switch bi.Name() {
 					case "append":
 						effects++
+						if keyedAccumulation(i, keyV) {
+							continue // m[k] = append(m[k], ...) with k the iteration key: every key's slice is only extended in its own iteration
+						}
 						appends = append(appends, i)
 					case "delete":
 						effects++
@@ -324,6 +327,9 @@ func totalSort(db *ContractDB, u *ssa.Call) (bool, string) {
 				}
 			}
 		}
+		if fw := forwardsTo(cf); fw != nil {
+			cf = fw // func(a, b K) int { return compare(a, b) }: the comparator it forwards its two arguments to
+		}
 		key := normKey(cf.RelString(nil))
 		if o := cf.Origin(); o != nil {
 			key = normKey(o.RelString(nil))
@@ -340,6 +346,93 @@ func totalSort(db *ContractDB, u *ssa.Call) (bool, string) {
 		return false, k + " by " + shortKey(key) + ": the comparator has no proved clause (orders-*/total-*/zero-only-*) that it separates distinct elements"
 	}
 	return false, k
+}
+
+// keyedAccumulation: the result of the append is only stored back under the iteration key into the map its first
+// argument was looked up from under that same key.
+func keyedAccumulation(call *ssa.Call, keyV ssa.Value) bool {
+	if keyV == nil || call.Referrers() == nil || len(call.Common().Args) == 0 {
+		return false
+	}
+	src := call.Common().Args[0]
+	if ex, ok := src.(*ssa.Extract); ok {
+		src = ex.Tuple
+	}
+	lk, ok := src.(*ssa.Lookup)
+	if !ok || lk.Index != keyV {
+		return false
+	}
+	stores := 0
+	for _, r := range *call.Referrers() {
+		switch u := r.(type) {
+		case *ssa.DebugRef:
+		case *ssa.MapUpdate:
+			if u.Key != keyV || u.Value != ssa.Value(call) || !sameMapValue(u.Map, lk.X) {
+				return false
+			}
+			stores++
+		default:
+			return false
+		}
+	}
+	return stores > 0
+}
+
+func sameMapValue(a, b ssa.Value) bool {
+	if a == b {
+		return true
+	}
+	ua, ok1 := a.(*ssa.UnOp)
+	ub, ok2 := b.(*ssa.UnOp)
+	return ok1 && ok2 && ua.X == ub.X
+}
+
+// forwardsTo: f is a two-parameter function whose body only converts its parameters to interfaces, passes them in
+// order to one static callee and returns that call's result.
+func forwardsTo(f *ssa.Function) *ssa.Function {
+	if len(f.Blocks) != 1 || len(f.Params) != 2 {
+		return nil
+	}
+	var call *ssa.Call
+	for _, in := range f.Blocks[0].Instrs {
+		switch i := in.(type) {
+		case *ssa.MakeInterface, *ssa.ChangeInterface, *ssa.ChangeType, *ssa.DebugRef:
+		case *ssa.Call:
+			if call != nil || i.Common().StaticCallee() == nil || len(i.Common().Args) != 2 {
+				return nil
+			}
+			call = i
+		case *ssa.Return:
+			if call == nil || len(i.Results) != 1 || i.Results[0] != ssa.Value(call) {
+				return nil
+			}
+		default:
+			return nil
+		}
+	}
+	if call == nil {
+		return nil
+	}
+	for k, a := range call.Common().Args {
+		for {
+			switch c := a.(type) {
+			case *ssa.MakeInterface:
+				a = c.X
+				continue
+			case *ssa.ChangeInterface:
+				a = c.X
+				continue
+			case *ssa.ChangeType:
+				a = c.X
+				continue
+			}
+			break
+		}
+		if a != ssa.Value(f.Params[k]) {
+			return nil
+		}
+	}
+	return call.Common().StaticCallee()
 }
 
 func sortedAfter(db *ContractDB, fn *ssa.Function, loop map[*ssa.BasicBlock]bool, appends []ssa.Value) (bool, bool, string) {
